@@ -1,6 +1,7 @@
 \* roots (quick): fewer per-shard behaviours
 CONSTANTS
   ShardLists <- MCListPerLength
+  Deployments <- MCDepClassic
   Instants = {0, 1, 2, 3, 4}
   Scenes = {"roots"}
   ChainKinds = {"x509", "precert", "precertPreIssuer"}
